@@ -2,7 +2,9 @@
   Simp sets used by the proofs about the translated SIMD kernels (core-only).
 
   `lane_get` : a register-level kernel read at one lane becomes an expression over the 64-bit lane functions of
-               `Isa/Vec.lean` (every intrinsic of `Isa/Avx2.lean`, the `V4.get_*` lemmas, the register constants).
+               `Isa/Vec.lean` (every intrinsic of `Isa/Avx2.lean`, the `V4.get_*` lemmas, the register constants;
+               `Lemmas/Avx512Nat.lean` adds the lane-wise intrinsics of `Isa/Avx512.lean`, the `V8.get_*` lemmas and
+               the masked add / subtract under every unsigned compare predicate, folded to `Lane.ultSel` / `eqSel`).
                Being one closed set, a kernel that starts using another (modelled) intrinsic, renames locals or
                reorders independent statements is still normalised by the same call.
   `lane_nat` : `BitVec.toNat` of a lane expression becomes arithmetic on `Nat` (`+ - * / %`, `if`), with both
